@@ -268,4 +268,6 @@ MUTANTS = [
  dict(id="C20", name="late_report_binds_again", edits=[(MM, "            if(std::get<0>(storage->mapping[i]) == ID) {", "            if(false && std::get<0>(storage->mapping[i]) == ID) {")], expect=0),
  dict(id="C12", name="char_zero_printed_raw", edits=[("src/cpp/pretty-format.c", "            else if(chr && c == '\\0')\n                return '0'; // (a raw NUL would end the text)\n", "")]),
  dict(id="C12", name="char_zero_escape_not_accepted", edits=[("src/cpp/pretty-format.c", "                    esc = (src[1] == '0') ? 1 : get_escaped_char(src[1], 1);", "                    esc = get_escaped_char(src[1], 1);")]),
+ dict(id="C13", name="scan_follows_absent_ports_without_memory", edits=[(SF, "    if(!scanned.insert(cur_portname).second)\n        return;\n", "    (void)scanned;\n")]),
+ dict(id="C13", name="scan_memory_shared_between_lines", edits=[(SF, "        std::set<std::string> scanned; // per line: the edges belong to it\n", "        static std::set<std::string> scanned;\n")]),
 ]
